@@ -43,6 +43,8 @@ type Result struct {
 	// Keys are hashed identities of distinct non-trivial cases / states when the shard counts
 	// must be merged exactly (optional, only small sets).
 	Done bool `json:"done"`
+	// Next > 0: the worker stopped voluntarily (per-process case limit); the driver restarts it at Next.
+	Next int64 `json:"next"`
 }
 
 // Ctx is the per-worker context.
@@ -54,6 +56,8 @@ type Ctx struct {
 	NShards int
 	Start   int64
 	Count   int64
+	MaxCases int64
+	executed int64
 	Seed    int64
 	Replay  string
 	Out     string
@@ -79,6 +83,7 @@ func Parse() *Ctx {
 	flag.IntVar(&c.NShards, "nshards", 1, "number of shards")
 	flag.Int64Var(&c.Start, "start", 0, "first case index to execute (resume after a crash)")
 	flag.Int64Var(&c.Count, "count", 0, "execute only this many case indices from -start (0 = all)")
+	flag.Int64Var(&c.MaxCases, "maxcases", 0, "stop after this many executed cases and ask to be restarted (0 = no limit)")
 	flag.Int64Var(&c.Seed, "seed", 0, "VERIF_SEED")
 	flag.StringVar(&c.Replay, "replay", "", "replay file")
 	flag.StringVar(&c.Out, "out", "", "result file")
@@ -115,6 +120,13 @@ func (c *Ctx) Mine(i int64) bool {
 	if i < c.Start || c.Count > 0 && i >= c.Start+c.Count || c.NShards > 1 && int(i%int64(c.NShards)) != c.Shard {
 		return false
 	}
+	if c.MaxCases > 0 && c.executed >= c.MaxCases {
+		if c.Res.Next == 0 {
+			c.Res.Next = i
+		}
+		return false
+	}
+	c.executed++
 	c.Mark(i)
 	return true
 }
@@ -197,7 +209,7 @@ func (c *Ctx) Full() bool { return len(c.Res.Violations) >= c.maxViol }
 
 // Finish writes the result file.
 func (c *Ctx) Finish() {
-	c.Res.Done = true
+	c.Res.Done = c.Res.Next == 0
 	sort.Slice(c.Res.Violations, func(i, j int) bool { return c.Res.Violations[i].Key < c.Res.Violations[j].Key })
 	b, err := json.Marshal(&c.Res)
 	if err != nil {
